@@ -117,7 +117,9 @@ Padded(it, b) ==
 ItemText(it) == IF it.k = "lit" THEN it.t ELSE Padded(it, Bare(it))
 
 RECURSIVE DoublePct(_)
-DoublePct(t) == IF t = <<>> THEN <<>> ELSE (IF Head(t) = 37 THEN <<37, 37>> ELSE <<Head(t)>>) \o DoublePct(Tail(t))
+DoublePct(t) == IF Len(t) = 0 THEN <<>>                           \* every '%' of literal text is written "%%" (halving: long texts)
+                ELSE IF Len(t) = 1 THEN (IF t[1] = 37 THEN <<37, 37>> ELSE t)
+                ELSE LET h == Len(t) \div 2 IN DoublePct(SubSeq(t, 1, h)) \o DoublePct(SubSeq(t, h + 1, Len(t)))
 ItemFmt(it) ==                                                  \* the piece of the C format string that denotes the item
     IF it.k = "lit" THEN DoublePct(it.t)
     ELSE <<37>> \o (IF it.fl = "l" THEN <<45>> ELSE IF it.fl = "z" THEN <<48>> ELSE <<>>)
@@ -196,7 +198,7 @@ SetDefault(cst, def) == [txt |-> def, st |-> "static", kept |-> (cst = "static")
 \* before it is tested; an argument that points into the stored copy is duplicated after the copy was released
 LeakBy(cur, cst, def, t)   == IF AsBuilt /\ cst = "heap" /\ cur = def /\ t # cur THEN "leak" ELSE bad
 NullBy(cst)                == IF AsBuilt /\ cst # "unset" THEN "nullderef" ELSE bad
-SuffixBy(cst)              == IF AsBuilt /\ cst = "heap" THEN "uaf" ELSE bad
+SuffixBy(cur, cst, def)    == IF AsBuilt /\ cst = "heap" THEN (IF cur = def THEN "leak" ELSE "uaf") ELSE bad
 
 OpSetName(t) == LET r == SetTo(name, nst, t) IN
     /\ Alive /\ Step("set_name", <<t>>, [kept |-> r.kept], r.txt, r.st, ver, vst, silent, level, LeakBy(name, nst, DefName, t))
@@ -208,7 +210,7 @@ OpSetNameAlias ==
 \* ... or a pointer INTO the stored text (e.g. the part behind the last '/'): I - the new name is that suffix
 OpSetNameSuffix(k) ==
     /\ Alive /\ nst # "unset" /\ k >= 1 /\ k <= Len(name)
-    /\ Step("set_name_alias", <<k>>, [kept |-> FALSE], SubSeq(name, k + 1, Len(name)), "heap", ver, vst, silent, level, SuffixBy(nst))
+    /\ Step("set_name_alias", <<k>>, [kept |-> FALSE], SubSeq(name, k + 1, Len(name)), "heap", ver, vst, silent, level, SuffixBy(name, nst, DefName))
 \* the variable is public: the client takes the pointer away (and releases a private copy itself)
 OpUnsetName ==
     /\ Alive /\ Step("unset_name", <<>>, TRUE, <<>>, "unset", ver, vst, silent, level, bad)
@@ -221,7 +223,7 @@ OpSetVerAlias ==
     /\ Alive /\ vst # "unset" /\ Step("set_ver_alias", <<0>>, [kept |-> TRUE], name, nst, ver, vst, silent, level, bad)
 OpSetVerSuffix(k) ==
     /\ Alive /\ vst # "unset" /\ k >= 1 /\ k <= Len(ver)
-    /\ Step("set_ver_alias", <<k>>, [kept |-> FALSE], name, nst, SubSeq(ver, k + 1, Len(ver)), "heap", silent, level, SuffixBy(vst))
+    /\ Step("set_ver_alias", <<k>>, [kept |-> FALSE], name, nst, SubSeq(ver, k + 1, Len(ver)), "heap", silent, level, SuffixBy(ver, vst, DefVer))
 OpUnsetVer ==
     /\ Alive /\ Step("unset_ver", <<>>, TRUE, name, nst, <<>>, "unset", silent, level, bad)
 
